@@ -334,6 +334,30 @@ def mon_c05(res):
     return [x for x in fails if x["clause"].startswith("C05")]
 
 
+def mon_c05_scoped(res):
+    """the declared signature names types through the scoping rules: on the scoping inputs (gen_special.gen_c11: the
+    same short names defined in several modules) the wrapper's parameter and return types must be the definitions
+    the rules select"""
+    fails = []
+    exp = res.case.get("exp")
+    if not exp or "c11" not in exp or res.hv[0] != "ok" or not exp["c11"]["resolvable"]:
+        return fails
+    c = exp["c11"]
+    f, tname = file_of_type(res, c["obs"])
+    mod = tuple(c["obs"].split("::")[:-1])
+    m = methods_of(f, tname).get("probe")
+    if m is None:
+        return [dict(clause="C05.method_missing", detail=c["obs"] + "::probe")]
+    fp = fn_parts(m)
+    want = tuple(c["arg"][1])
+    got = [path_of_type_tokens(p_[2][1:], mod) for p_ in fp["params"] if isinstance(p_, list) and p_[0] == "arg"]
+    got.append(path_of_type_tokens(fp["ret"], mod))
+    if any(g != want for g in got):
+        fails.append(dict(clause="C05.signature_binding", detail="%s::probe(p: *const %s) -> *mut %s emitted with %s, the name binds to %s"
+                          % (c["obs"], c["arg"][0], c["arg"][0], got, want)))
+    return fails
+
+
 def vftable_fields(res, tpath):
     """[(name, vis, type token string)] of the emitted <T>Vftable struct, or None"""
     f, tname = file_of_type(res, tpath)
@@ -1036,11 +1060,16 @@ FUNC_PROFILE = dict(p_impl=0.9, impl_fns=(1, 4), args=(0, 6), p_cc=0.45, p_ret=0
 
 PROPS["C05"] = dict(
     exec_oracle=True,
+    generator=lambda seed_, ptr_: (gen_special.gen_c11(seed_, ptr_) if seed_ % 12 == 5
+                                   else gen.generate(seed_, ptr_, PROPS["C05"]["profile"])),
     profile=FUNC_PROFILE, n=(400, 6000), corpus=["common", "C05"],
     aspects=["verdict", "methods", "fn_sig", "body_addr", "items"],
-    monitors=[mon_c05],
-    nontrivial=lambda res: res.hv[0] == "ok" and res.case.get("exp") and any(t["impls"] for t in res.case["exp"]["types"].values()),
-    rule="gen.py with the FUNC profile: impl blocks with 1..4 functions, 0..6 integer/pointer/user-typed arguments, with and "
+    monitors=[mon_c05, mon_c05_scoped],
+    nontrivial=lambda res: res.hv[0] == "ok" and res.case.get("exp") and (
+        "c11" in res.case["exp"] or any(t["impls"] for t in res.case["exp"]["types"].values())),
+    rule="one case in twelve: the scoping inputs of C11 (the same short names defined in several modules; the observer's impl function names "
+         "one of them in its parameter and return type); otherwise "
+         "gen.py with the FUNC profile: impl blocks with 1..4 functions, 0..6 integer/pointer/user-typed arguments, with and "
          "without receiver and return type, addresses in decimal/hex/binary/octal/underscore spellings incl. 0, 2^31, 2^32-1; "
          "non-trivial = accepted with >= 1 impl function",
     level_text="Proved in Coq for every registry, scope and function (Properties/C05.v): an accepted impl function becomes a record with "
@@ -1147,12 +1176,15 @@ PROPS["C06"] = dict(
 )
 PROPS["C07"] = dict(
     exec_oracle=True,
+    generator=lambda seed_, ptr_: (gen_special.gen_c07_namesakes(seed_, ptr_) if seed_ % 15 == 3
+                                   else gen.generate(seed_, ptr_, PROPS["C07"]["profile"])),
     profile=INHERIT_PROFILE, n=(400, 6000), corpus=["common", "C07"],
     aspects=["verdict", "methods", "body_field", "fn_sig", "asref", "asref_conflict", "items"],
     monitors=[mon_c07],
     nontrivial=lambda res: res.hv[0] == "ok" and res.case.get("exp") and any(
         t.get("base_fields") and public_assoc(res.case["exp"], p_, {}) for p_, t in res.case["exp"]["types"].items()),
-    rule="gen.py INHERIT profile: hierarchies with up to three bases per level, diamonds (the same base type reached twice), name clashes between bases (same type twice) "
+    rule="one case in fifteen: base types sharing their simple name in different modules, reached through intermediate bases (gen_special.gen_c07_namesakes); otherwise "
+         "gen.py INHERIT profile: hierarchies with up to three bases per level, diamonds (the same base type reached twice), name clashes between bases (same type twice) "
          "and public/private mixes; non-trivial = accepted with a derived type that re-exposes >= 1 function",
     level_text="Proved in Coq (Properties/C07.v): inject_bases appends, per resolved base in region order, one forwarding function per public associated function (and per public virtual function for "
                "bases after the first), copying signature/visibility/doc/convention, with body 'call g on field b'; named g when unused, else <field>_<g>; RustExec: calling it = calling g on the object at self+offset(b), "
@@ -1352,6 +1384,18 @@ PROPS["C02"].update(
                "(checked against pylayout on the real files and, at pointer width 8, against rustc itself: const assertions size_of/align_of == resolved on the emitted crate, 40 crates quick / 600 thorough; at pointer width 4 and 8 against the nightly compiler's -Zprint-type-sizes for i686-/x86_64-pc-windows-msvc on the emitted definitions compiled without core, 80 crates quick / 1200 thorough), not proved against rustc.",
 )
 
+# every open finding of a property is also a witness theorem about the model (coq/theories/RefutedWitnesses*.v)
+for _pid, _txt in {
+    "C01": "Where the property is false of pyxis (open finding F9, by-value void) the model is false too: C01_void_by_value_refuted_F9.",
+    "C02": "Where the property is false of pyxis (open findings F4b, F9) the model is false too: C02_vftable_named_type_replaced_refuted_F4b, C02_void_by_value_refuted_F9.",
+    "C07": "Open findings F24 and F10 are theorems about the model: C07_inherited_rename_collides_refuted_F24, C07_receiverless_forward_refuted_F10.",
+    "C08": "Open findings F12a-c are theorems about the model: C08_enum_without_variants_refuted_F12a, C08_enum_struct_base_refuted_F12b, C08_enum_duplicate_discriminant_refuted_F12c (F2: C08_range_refuted).",
+    "C09": "Without the two side conditions the claim is refuted on the model with concrete schedules: C09_order_dependence_F4b_refuted (different verdicts at width 4, different files at width 8), C09_order_dependence_F7b_refuted.",
+    "C13": "Each open finding of this property is a witness theorem on the model (accepted input, emitted item that rustc rejects): C13_*_refuted_F12a/F12b/F12c/F13/F14/F19/F21/F10/F24.",
+    "C14": "Without collision_free the claim is refuted on the model: C14_vftable_named_type_replaced_refuted_F4b (open finding F4b).",
+}.items():
+    PROPS[_pid]["level_text"] = PROPS[_pid]["level_text"].rstrip() + " " + _txt
+
 # ------------------------------------------------------------------------------------------------
 # findings
 
@@ -1426,6 +1470,7 @@ MISS_PROPS = {
     "defaultable without default": ["C08"], "default without defaultable": ["C08"], "two defaults": ["C08"],
     "derived vftable omits the last base slot": ["C06"],
     "derived vftable ends inside the base's trailing padding": ["C06"],
+    "derived vftable declares a base function one slot early": ["C06"],
     "derived vftable slot differs from the base's: name": ["C06"], "derived vftable slot differs from the base's: receiver": ["C06"],
     "derived vftable slot differs from the base's: cc": ["C06", "C16"], "derived vftable slot differs from the base's: ret": ["C06"],
     "derived vftable slot differs from the base's: arg_count": ["C06"], "derived vftable slot differs from the base's: arg_type": ["C06"],
